@@ -1013,6 +1013,64 @@ def r_rcodefinal(prog, R):
         r.ok(key, top.loc(top.ln), note="%d evaluations" % len(seen))
 
 
+def r_ptrbits(prog, R):
+    r = R.rule("R-C04-PTRBITS", "the name decoder reads a compression pointer as RFC 1035 4.1.4 lays it out: label type = top two bits of the first octet (11 pointer, 10 and 01 reserved, "
+               "00 length), offset = the remaining 6 bits times 256 plus the second octet", floor=3,
+               analysis="exact evaluation of the decoder's own expressions for all 256 values of the octet (evalx)")
+    f = prog.func("ares_dns_name_parse")
+    # (1) high part of the offset
+    hi = None
+    for b, i, el in f.elements():
+        if el["k"] == "decl":
+            for v in el["vars"]:
+                if v["n"] == "offset" and v.get("init") is not None:
+                    hi = (v["init"], el)
+        if el["k"] == "asg" and el["e"]["op"] == "=" and is_var(strip(el["e"]["l"]), "offset") and hi is None:
+            hi = (el["e"]["r"], el)
+    lo = [(el["e"], el) for b, i, el in f.elements() if el["k"] == "asg" and el["e"]["op"] in ("|=", "+=") and is_var(strip(el["e"]["l"]), "offset")]
+    if not r.require(hi is not None and len(lo) == 1, "ares_dns_name_parse: the two statements that build the pointer offset not found"):
+        return
+    try:
+        src = sorted({v["n"] for v in vars_in(hi[0])})
+        k = "pointer offset, high part = (first octet & 0x3F) << 8"
+        bad = [c for c in range(0xC0, 0x100) if len(src) != 1 or evalx.ev(hi[0], {src[0]: c}) != ((c & 0x3F) << 8)]
+        if bad:
+            r.viol(k, f.name, f.loc(hi[1]), "for a first octet of 0x%02x the decoder computes a high part of 0x%x instead of 0x%x: pointers into the upper part of a message land elsewhere (the name decodes to "
+                   "different labels or is rejected)" % (bad[0], evalx.ev(hi[0], {src[0]: bad[0]}) if len(src) == 1 else -1, (bad[0] & 0x3F) << 8))
+        else:
+            r.ok(k, f.loc(hi[1]), note="64 octet values")
+        k = "pointer offset, low part = second octet"
+        src2 = sorted({v["n"] for v in vars_in(lo[0][0].get("r"))})
+        bad = [c for c in range(256) if len(src2) != 1 or evalx.ev(lo[0][0]["r"], {src2[0]: c}) != c]
+        if bad:
+            r.viol(k, f.name, f.loc(lo[0][1]), "the second octet 0x%02x contributes 0x%x to the offset" % (bad[0], evalx.ev(lo[0][0]["r"], {src2[0]: bad[0]}) if len(src2) == 1 else -1))
+        else:
+            r.ok(k, f.loc(lo[0][1]), note="256 octet values")
+        # (2) classification of the first octet: some branch is true exactly for 11xxxxxx, and after it one that is true for every 10/01 and false for 00
+        conds = []
+        for bid in f.rpo():
+            br = f.branch(bid)
+            if not br:
+                continue
+            vs = sorted({v["n"] for v in vars_in(br[0])})
+            if len(vs) == 1 and "&" in render(br[0]):
+                try:
+                    tt = [evalx.ev(evalx._leafify(strip(br[0])), {vs[0]: c}) for c in range(256)]
+                except evalx.Unknown:
+                    continue
+                conds.append((bid, tt))
+        k = "label type from the top two bits of the octet"
+        ptr = [bid for bid, tt in conds if all(bool(tt[c]) == (c >= 0xC0) for c in range(256))]
+        rsv = [bid for bid, tt in conds if all(tt[c] for c in range(0x40, 0xC0)) and not any(tt[c] for c in range(0x40))]
+        if ptr and rsv:
+            r.ok(k, f.loc(f.ln), note="pointer test and reserved-type test evaluated for 256 octets")
+        else:
+            r.viol(k, f.name, f.loc(f.ln), "no branch of the decoder is true exactly for octets 0xC0..0xFF (pointer)%s" % ("" if ptr else "") if not ptr else
+                   "no branch rejects exactly the reserved label types 01 and 10 (octets 0x40..0xBF) while accepting every length 0..63")
+    except evalx.Unknown as ex:
+        r.broke("ares_dns_name_parse: pointer arithmetic not interpretable: %s" % ex)
+
+
 def run(prog, R, tier):
     R.assume("tables/iana.json reproduces the IANA registries and RFC bit layouts correctly (written from the RFCs, not from the code)")
     r_bits(prog, R)
@@ -1030,6 +1088,7 @@ def run(prog, R, tier):
     r_optdup(prog, R)
     r_optkey(prog, R)
     r_rcodefinal(prog, R)
+    r_ptrbits(prog, R)
     codecrules.r_preslimit(prog, R, "R-C04-PRESLIMIT")
     codecrules.r_suffix(prog, R, "R-C04-SUFFIX")
     codecrules.r_blank(prog, R, "R-C04-BLANK")
